@@ -523,11 +523,17 @@ func (w *OggWriter) Close() error {
 	}()
 
 	if w.fd == nil {
+		if w.stream == nil {
+			return nil
+		}
+		// The output cannot be rewound to flag the last page, so the logical
+		// stream is terminated with an empty end-of-stream page.
+		closeErr := writeNilEndOfStreamPage(w.stream, w.checksumTable, w.track)
 		if closer, ok := w.stream.(io.Closer); ok {
-			return closer.Close()
+			closeErr = errors.Join(closeErr, closer.Close())
 		}
 
-		return nil
+		return closeErr
 	}
 
 	closeErr := markTrackEndOfStream(w.fd, w.checksumTable, w.track)
